@@ -407,10 +407,18 @@ def _round_sparse_x_to_integers(
             data = src['X/data']
             chunk_size = data.chunks
 
+            if chunk_size is None or 0 in data.shape:
+                dst_chunks = None
+            else:
+                # a resizable dataset may have chunks larger
+                # than its current shape
+                dst_chunks = tuple(
+                    min(c, n) for c, n in zip(chunk_size, data.shape))
+
             dst.create_dataset(
                 'data',
                 shape=data.shape,
-                chunks=chunk_size,
+                chunks=dst_chunks,
                 dtype=output_dtype)
 
             if chunk_size is None:
